@@ -119,6 +119,33 @@ Proof.
   split; [vm_compute; reflexivity|]. split; vm_compute; reflexivity.
 Qed.
 
+(* ---------- 5. codata: a stream built by `new` (corecursive), destructors on variables, a by-name
+   let and a by-name argument (s.tl() is passed unevaluated) ---------- *)
+Definition tyS : fty := FDecl "Stream" [].
+Definition vS (x : string) : fterm := FVar x (Some tyS) (Some FPrd).
+Definition ex_codata : fcprog :=
+  mkfcprog [] [mkfcodata "Stream" [] [mkfdtor "hd" [] FI64; mkfdtor "tl" [] tyS]]
+    [mkfdef "from" [pI "n"] tyS
+       (FNew [FClause FCodata "hd" [] [] (vI "n");
+              FClause FCodata "tl" [] [] (FCall "from" [FOp (vI "n") FSum (FLit 1)] (Some tyS))] (Some tyS));
+     mkfdef "nth" [mkfb "s" FPrd tyS; pI "k"] FI64
+       (FIfC FEq (vI "k") None (FDtor (vS "s") "hd" [] [] oI)
+          (callI "nth" [FDtor (vS "s") "tl" [] [] (Some tyS); FOp (vI "k") FSub (FLit 1)]) oI);
+     mkfdef "main" [pI "n"] FI64
+       (FLet "s" tyS (FCall "from" [vI "n"] (Some tyS))
+          (FPrint true (callI "nth" [vS "s"; FLit 3])
+             (FPrint true (FDtor (vS "s") "hd" [] [] oI) (FLit 0) oI) oI) oI)].
+
+Example ex_codata_ok :
+  prog_guard ex_codata = true /\ NoDup (map fdname (fcpdefs ex_codata)) /\
+  compile_prog ex_codata = Ok (compiled_or_empty ex_codata) /\
+  run_fun 1000 ex_codata [10] = ([(true, 13); (true, 10)], OExit 0) /\
+  run_core 2000 (compiled_or_empty ex_codata) [10] = ([(true, 13); (true, 10)], OExit 0).
+Proof.
+  split; [vm_compute; reflexivity|]. split; [repeat constructor; simpl; intuition discriminate|].
+  split; [vm_compute; reflexivity|]. split; vm_compute; reflexivity.
+Qed.
+
 (* ---------- the guard rejects the capture witness and the call-to-main witness ---------- *)
 Example guard_rejects_capture_witness : prog_guard capture_witness = false.
 Proof. vm_compute. reflexivity. Qed.
